@@ -1023,7 +1023,7 @@ func (x *decExec) doReset() {
 			return
 		}
 		x.all = x.all[:0]
-	x.base = 0
+		x.base = 0
 		x.base = 0
 		x.cursor = 0
 		x.relations("Reset", st, false)
@@ -1078,7 +1078,7 @@ func (x *decExec) doReinit(op DOp) {
 		x.wr = nw
 		x.cc = cfg.completed()
 		x.all = x.all[:0]
-	x.base = 0
+		x.base = 0
 		x.base = 0
 		x.retriesPending = nil
 		return
